@@ -19,14 +19,19 @@ confirm)
   git -C /repo worktree add -q --detach "$wt" HEAD || exit 2
   trap 'git -C /repo worktree remove --force "$wt" >/dev/null 2>&1' EXIT
   cd "$wt"
+  # a demonstration may need a dev-dependency the crate does not declare (serde_json for C16, marked by demo_devdeps.txt)
+  adddeps() { [ -f "$d/demo_devdeps.txt" ] && { printf '\n[dev-dependencies.serde_json]\nversion = "1"\n' >> purl/Cargo.toml; }; return 0; }
   mkdir -p purl/tests && cp "$d/demo.rs" purl/tests/demo.rs
+  adddeps
   export CARGO_TARGET_DIR=/tmp/wt/confirm-target
   flags=""; [ -f "$d/demo_flags.txt" ] && flags=$(cat "$d/demo_flags.txt")     # e.g. --features serde
   if cargo test --offline -q -p purl $flags --test demo >/tmp/wt/confirm.log 2>&1; then echo "clean: demo passes"; else echo "clean: demo FAILS (bad mutant)"; tail -20 /tmp/wt/confirm.log; exit 1; fi
+  git checkout -q -- purl/Cargo.toml
   git apply "$d/patch.diff" || { echo "patch does not apply"; exit 1; }
   rm purl/tests/demo.rs
   if cargo test --workspace --offline -q >/tmp/wt/confirm.log 2>&1; then echo "mutant: existing suite passes"; else echo "mutant: existing suite FAILS (bad mutant)"; grep -E "FAILED|failed|error" /tmp/wt/confirm.log | head; exit 1; fi
   cp "$d/demo.rs" purl/tests/demo.rs
+  adddeps
   if cargo test --offline -q -p purl $flags --test demo >/tmp/wt/confirm.log 2>&1; then echo "mutant: demo PASSES (bad mutant)"; exit 1; else echo "mutant: demo fails (good)"; fi
   exit 0 ;;
 run)
